@@ -1,4 +1,6 @@
 """C03 — script evaluation agrees with Bitcoin consensus for every script and flag set."""
+import collections
+import hashlib
 import os
 
 from vmon.probe import shard_rng
@@ -14,7 +16,10 @@ RULE = ("spend cases (scriptSig, scriptPubKey, witness, flags, tx context) and e
         "P2SH/P2WSH/P2SH-P2WSH), an opcode x operand-class matrix over all 256 opcode values in executed and dead positions, limit probes "
         "(script size, op count, stack size, push size, truncated pushes, nesting), witness-program dispatch (versions 0-16 x lengths), "
         "signature-bearing P2PK/P2PKH/multisig spends in all wrappers with every signature/pubkey encoding variant and hash type, CLTV/CSV "
-        "boundary grids, and random scripts. Non-trivial: the reference executed at least one non-push opcode or a dispatch rule "
+        "boundary grids, minimal-push and DER-form x single-flag matrices, size limits met through whole spends (scriptSig / scriptPubKey / redeem "
+        "script / nested witness script and items), random scripts bare and wrapped. Every 16th agreeing spend and every multi-input "
+        "transaction is asked again through Tx.is_solution_ok and Tx.bad_solution_count (also without a flags argument when the flag set is "
+        "pycoin's default). Non-trivial: the reference executed at least one non-push opcode or a dispatch rule "
         "(P2SH / witness / cleanstack / push-only) decided the case; distinct by (scripts, witness, flags, context).")
 ASSUMPTIONS = [
     "consensus = vmon/refs/script.py, a re-implementation of Bitcoin Core 0.14-0.16 interpreter.cpp; it must reproduce all 1,205 script_tests.json "
@@ -23,6 +28,10 @@ ASSUMPTIONS = [
     "flag sets are restricted to those Core permits together (WITNESS implies P2SH; CLEANSTACK implies P2SH and WITNESS)",
     "a non-ScriptError exception from pycoin counts as 'did not succeed'; it is a violation only where consensus succeeds",
     "single-script evaluation with sigversion BASE strips MINIMALIF / WITNESS_PUBKEYTYPE before calling BitcoinVM, as pycoin's own dispatcher does",
+    "verification flags are handed to pycoin by name (pycoin.satoshi.flags.VERIFY_<name>), not by bit position; the signature-hash callback a "
+    "stand-alone BitcoinVM needs is the one pycoin's public puzzle_and_solution_iterator yields for a script of that kind",
+    "Tx.is_solution_ok is compared by truthiness, Tx.bad_solution_count as a number; inputs of a spend case other than the one under test "
+    "spend an empty scriptPubKey of value 0 and are judged by the reference like any other",
 ]
 EXPLANATION = "pycoin succeeds <=> reference succeeds, and equal final stacks for single-script evaluation"
 TIMEOUT = {"quick": 900, "thorough": 4 * 3600}
@@ -56,6 +65,8 @@ def plan(tier, seed):
     # the same signature-bearing workload with the pure-Python arithmetic backend, and with other networks created first
     shards.append({"kind": "p2pk", "n": 120 if q else 2500, "env": {"PYCOIN_NATIVE": "none"}, "label": "p2pk-pure"})
     shards.append({"kind": "multisig", "n": 40 if q else 800, "env": {"PYCOIN_NATIVE": "none"}, "label": "multisig-pure"})
+    # the deterministic signature matrices that do not fit into the "fixed" shard's time (appended: earlier shards keep their streams)
+    shards.append({"kind": "sigmatrix", "label": "sigmatrix"})
     for k, s in enumerate(shards):
         if k % 3 == 1:
             s["other_networks_first"] = True
@@ -76,7 +87,11 @@ def selftest(rec):
 
 # ---------------------------------------------------------------------------------------------------
 
+ENTRY_POINTS_EVERY = 16          # every n-th agreeing spend case is also asked through Tx.is_solution_ok / Tx.bad_solution_count
+ENTRY_POINT_SOURCES = ("corpus.tx",)
 OTHER_NETS = ["ltc", "bch", "btg", "grs", "doge", "xtn", "dash"]
+FLAG_BITS = sorted((v, n) for n, v in RS.FLAG_NAMES.items() if v)
+P2WSH_TRUE = b"\x00\x20" + hashlib.sha256(b"\x51").digest()
 
 
 class Py:
@@ -93,6 +108,15 @@ class Py:
                 importlib.import_module("pycoin.symbols." + n)
         from pycoin.coins.SolutionChecker import ScriptError
         from pycoin.satoshi import errno
+        from pycoin.satoshi import flags as pyflags
+        # verification flags are handed over by NAME (VERIFY_<name>), never by the reference's bit positions
+        self._flag_bits = [(bit, getattr(pyflags, "VERIFY_" + name)) for bit, name in FLAG_BITS]
+        self._flag_cache = {}
+        # the flag set pycoin applies when the caller names none (its declared DEFAULT_FLAGS), in the reference's bits; None if unknown
+        d = getattr(getattr(network.tx, "SolutionChecker", None), "DEFAULT_FLAGS", None)
+        self.default_flags = None
+        if isinstance(d, int) and not d & ~sum(theirs for _, theirs in self._flag_bits):
+            self.default_flags = sum(ours for ours, theirs in self._flag_bits if d & theirs)
         self.network = network
         self.Tx = network.tx
         self.ScriptError = ScriptError
@@ -110,13 +134,29 @@ class Py:
         unspents = [Tx.TxOut(case["amount"] if k == case["n_in"] else 0, case["spk"] if k == case["n_in"] else b"") for k in range(len(ins))]
         return Tx(t["version"], ins, outs, t["lock_time"], unspents)
 
+    def flags(self, f):
+        r = self._flag_cache.get(f)
+        if r is None:
+            r = 0
+            for ours, theirs in self._flag_bits:
+                if f & ours:
+                    r |= theirs
+            self._flag_cache[f] = r
+        return r
+
     def code(self, e):
-        return self.errname.get(e.error_code(), "ERR") if isinstance(e, self.ScriptError) else "CRASH:" + type(e).__name__
+        # only a label for mechanism keys; verdicts never depend on it
+        if not isinstance(e, self.ScriptError):
+            return "CRASH:" + type(e).__name__
+        try:
+            return self.errname.get(e.error_code(), "ERR")
+        except Exception:
+            return "ERR"
 
     def spend(self, case, tb=None):
         tx = self.build(case)
         try:
-            tx.check_solution(case["n_in"], flags=case["flags"], traceback_f=tb)
+            tx.check_solution(case["n_in"], flags=self.flags(case["flags"]), traceback_f=tb)
             return "OK", None
         except self.ScriptError as e:
             return self.code(e), None
@@ -125,6 +165,23 @@ class Py:
         except Exception as e:
             return self.code(e), None
 
+    def sighash_f(self, case, sc):
+        """the signature-hash callback pycoin's own dispatcher hands to the VM for a script of this kind, taken from the public
+        puzzle_and_solution_iterator: the first stage (scriptPubKey) carries the legacy one, the last stage of a P2WSH spend the
+        BIP143 one. Both are bound to the case's transaction, input 0 and amount."""
+        if case["sv"] == 0:
+            for t in sc.puzzle_and_solution_iterator(sc.tx_context_for_idx(0), flags=0):
+                return t[3]
+        t2 = dict(case["tx"])
+        t2["ins"] = [dict(i) for i in t2["ins"]]
+        t2["ins"][0]["script"], t2["ins"][0]["witness"] = b"", [b"\x51"]
+        tx = self.build(dict(case, tx=t2, spk=P2WSH_TRUE))
+        sc = tx.SolutionChecker(tx)
+        last = None
+        for last in sc.puzzle_and_solution_iterator(sc.tx_context_for_idx(0), flags=self.flags(RS.P2SH | RS.WITNESS)):
+            pass
+        return last[3]
+
     def eval(self, case, tb=None):
         tx = self.build(case)
         sc = tx.SolutionChecker(tx)
@@ -132,13 +189,10 @@ class Py:
         flags = case["flags"]
         if case["sv"] == 0:
             flags &= ~(RS.MINIMALIF | RS.WITNESS_PUBKEYTYPE)
-            sighash_f = sc._make_sighash_f(0)
-        else:
-            sighash_f = sc._make_witness_sighash_f(0)
         try:
-            vm = sc.VM(case["script"], ctx, sighash_f, flags, initial_stack=[bytes(x) for x in case["stack"]])
+            vm = sc.VM(case["script"], ctx, self.sighash_f(case, sc), self.flags(flags), initial_stack=[bytes(x) for x in case["stack"]],
+                       traceback_f=tb)
             vm.is_solution_script = False
-            vm.traceback_f = tb
             st = vm.eval_script()
             return "OK", [bytes(x) for x in st]
         except self.ScriptError as e:
@@ -241,6 +295,10 @@ class Monitor:
         self.rec = rec
         self.py = Py(others)
         self.crash_on_invalid = {}
+        self.tally = collections.Counter()       # clause counters, flushed into rec at the end of the shard
+        self.opm_seen = set()                    # (opcode, position) pairs of the covering part of the opcode matrix
+        self.n_spend = 0
+        self.entry_every = ENTRY_POINTS_EVERY
 
     def py_trace(self, case):
         trace = []
@@ -279,21 +337,24 @@ class Monitor:
         rec.ev("src:multi")
 
         def verdict(fn):
+            # True / False; an exception that is not a ScriptError is "did not succeed" (tallied), as for single spends
             try:
                 fn()
                 return True
             except self.py.ScriptError:
                 return False
             except Exception as e:
-                return "EXC:" + type(e).__name__
-        fresh = [verdict(lambda i=i: ptx.check_solution(i, flags=flags)) for i in range(n)]
+                rec.ev("crash_on_invalid:CRASH:" + type(e).__name__)
+                return False
+        pf = self.py.flags(flags)
+        fresh = [verdict(lambda i=i: ptx.check_solution(i, flags=pf)) for i in range(n)]
         rec.ev("Tx.check_solution", n)
         results = {"fresh": fresh}
         for name, order in (("shared_forward", list(range(n))), ("shared_backward", list(range(n - 1, -1, -1)))):
             sc = ptx.SolutionChecker(ptx)
             got = {}
             for i in order:
-                got[i] = verdict(lambda i=i: sc.check_solution(sc.tx_context_for_idx(i), flags=flags))
+                got[i] = verdict(lambda i=i: sc.check_solution(sc.tx_context_for_idx(i), flags=pf))
             results[name] = [got[i] for i in range(n)]
             rec.ev("SolutionChecker.check_solution(shared instance)", n)
         for name, got in results.items():
@@ -302,7 +363,87 @@ class Monitor:
                 direction = "accepts" if any(got[i] is True for i in bad) else "rejects"
                 rec.violation("multi.%s.%s" % (direction, name), case, {name: got}, {"consensus": ref})
                 return False
+        return self.entry_points(case, ptx, ref, flags)
+
+    def entry_points(self, case, ptx, ref, flags):
+        """the other two public ways of asking the same question, on an already-agreeing transaction: Tx.is_solution_ok(i) is truthy
+        exactly for the consensus-valid inputs, Tx.bad_solution_count() is the number of consensus-invalid ones. When the case's flag
+        set is the one pycoin declares as its default (SolutionChecker.DEFAULT_FLAGS) the calls are also made without a flags argument."""
+        rec = self.rec
+        n = len(ref)
+        variants = [("", {"flags": self.py.flags(flags)})]
+        if flags == self.py.default_flags:
+            variants.append((".default_flags", {}))
+        for tag, kw in variants:
+            for i in range(n):
+                if case["k"] != "multi" and i != case["n_in"]:
+                    continue
+                try:
+                    got = bool(ptx.is_solution_ok(i, **kw))
+                except Exception as e:
+                    rec.ev("crash_on_invalid:CRASH:" + type(e).__name__)
+                    got = False
+                rec.ev("Tx.is_solution_ok" + tag)
+                if got != ref[i]:
+                    rec.violation("entry.is_solution_ok%s.%s" % (tag, "accepts" if got else "rejects"), case,
+                                  {"is_solution_ok": got, "input": i}, {"consensus": ref})
+                    return False
+            try:
+                cnt = ptx.bad_solution_count(**kw)
+            except Exception as e:
+                rec.ev("crash_on_invalid:CRASH:" + type(e).__name__)
+                cnt = None if all(ref) else ref.count(False)
+            rec.ev("Tx.bad_solution_count" + tag)
+            if cnt != ref.count(False):
+                rec.violation("entry.bad_solution_count%s.%s" % (tag, "crash" if cnt is None else "low" if cnt < ref.count(False) else "high"),
+                              case, {"bad_solution_count": cnt}, {"consensus": ref})
+                return False
         return True
+
+    def spend_entry_points(self, case, ref_ok):
+        """consensus verdict of every input of a single-spend case as Py.build presents it (inputs other than n_in spend an
+        empty scriptPubKey of value 0), then entry_points()"""
+        tx, flags = case["tx"], case["flags"]
+        if any(ti["prev"] == b"\0" * 32 for ti in tx["ins"]):
+            return True         # a coinbase-shaped transaction has no spends to count
+        ref = []
+        for i, ti in enumerate(tx["ins"]):
+            if i == case["n_in"]:
+                ref.append(ref_ok)
+            else:
+                ref.append(RS.result_of(RS.verify_script, ti["script"], b"", ti["witness"], flags, RS.TxChecker(tx, i, 0)) == "OK")
+        return self.entry_points(case, self.py.build(case), ref, flags)
+
+    def count_clauses(self, case, ref_code, rtrace):
+        """which rule of the statement decided this case according to the reference, which script stages ran, which flags were on"""
+        t = self.tally
+        flags = case["flags"]
+        code = ref_code
+        if code == "SIG_DER":
+            on = [n for b, n in ((RS.DERSIG, "DERSIG"), (RS.LOW_S, "LOW_S"), (RS.STRICTENC, "STRICTENC")) if flags & b]
+            code += "[%s]" % (on[0] if len(on) == 1 else "several")
+        t["decided_by:" + code] += 1
+        prev = None
+        for x in rtrace:
+            if x[0] != prev:
+                prev = x[0]
+                t["stage:" + (prev or "eval")] += 1
+        if ref_code == "OK":
+            for b, n in FLAG_BITS:
+                if flags & b:
+                    t["ok_with_flag:" + n] += 1
+        opm = case.get("opm")
+        if opm:
+            self.opm_seen.add((opm[0], opm[1]))
+
+    def flush(self):
+        for k, v in self.tally.items():
+            self.rec.ev(k, v)
+        self.tally.clear()
+        if self.opm_seen:
+            self.rec.ev("opmatrix.opcode_x_position", len(self.opm_seen))
+            if all((op, pos) in self.opm_seen for op in range(256) for pos in ("exec", "dead_if", "dead_else")):
+                self.rec.ev("opmatrix.all_256_opcodes_executed_and_dead")
 
     def run(self, case):
         if case["k"] == "multi":
@@ -323,9 +464,17 @@ class Monitor:
         rec.case(key, nontrivial=nontrivial(case, ref_code, rtrace))
         rec.ev("ref:" + ("OK" if ref_code == "OK" else "FAIL"))
         ok_ref, ok_py = ref_code == "OK", py_code == "OK"
+        self.count_clauses(case, ref_code, rtrace)
         if ok_ref == ok_py and (not ok_ref or case["k"] == "spend" or ref_stack == py_stack):
             if py_code.startswith("CRASH"):
                 rec.ev("crash_on_invalid:" + py_code)
+            if case["k"] == "eval":
+                if ok_ref:
+                    self.tally["eval.final_stack_compared"] += 1
+                return True
+            self.n_spend += 1
+            if self.n_spend % self.entry_every == 0 or case["src"] in ENTRY_POINT_SOURCES:
+                return self.spend_entry_points(case, ok_ref)
             return True
         ptrace = self.py_trace(case)
         mech = classify(case, ref_code, py_code, rtrace, ptrace, ref_stack, py_stack)
@@ -358,34 +507,79 @@ def run_shard(spec, rec):
                 rec.sample(_brief(case))
 
     if kind == "fixed":
+        # every clause of the statement has a counter fed by this shard's deterministic workloads; a clause that was not reached
+        # makes the run inconclusive
+        rec.require(*REQUIRED_FIXED)
         feed(G.corpus_cases(dd), 400)
         feed(G.limit_cases(rng), 100)
+        feed(G.spend_limit_cases(rng), 20)
         feed(G.witness_dispatch_cases(rng), 800)
-        feed(G.opcode_matrix(rng, range(256), 4), 400)
+        feed(G.opcode_matrix(rng, range(256), 4, cover=True), 400)
+        feed(G.minimal_push_matrix(rng), 200)
         feed(G.SigGen(rng, keys).p2pk_like(150), 100)
+        feed(G.der_flag_matrix(rng, keys), 100)
         feed(G.boundary_s_cases(rng, keys), 300)
-        feed(G.nullfail_matrix(rng, keys), 500)
-        feed(G.tiny_sig_matrix(rng, keys), 100)
-        feed(G.two_sigops_cases(rng, keys, 160), 80)
+        feed(G.nullfail_matrix(rng, keys, ("bare",)), 500)
         feed(G.multi_input_cases(rng, keys, 120), 60)
         feed(G.embedded_sig_length_cases(rng, keys), 60)
+    elif kind == "sigmatrix":
+        rec.require("src:sig", "decided_by:NULLFAIL", "decided_by:CHECKMULTISIGVERIFY", "stage:witness", "stage:redeem")
+        feed(G.nullfail_matrix(rng, keys, ("p2wsh",)), 500)
+        feed(G.tiny_sig_matrix(rng, keys), 100)
+        feed(G.two_sigops_cases(rng, keys, 160), 80)
     elif kind == "mut":
+        rec.require("src:mut")
         feed(G.corpus_mutations(rng, dd, spec["n"]), 3000)
     elif kind == "opm":
+        rec.require("src:opmatrix", "eval.final_stack_compared")
         ops = [o for o in range(256) if o % spec["parts"] == spec["part"]]
         feed(G.opcode_matrix(rng, ops, spec["per"]), 1500)
     elif kind == "p2pk":
+        rec.require("src:sig", "stage:witness", "stage:redeem")
         feed(G.SigGen(rng, keys).p2pk_like(spec["n"]), 400)
     elif kind == "multisig":
+        rec.require("src:sig", "stage:witness", "stage:redeem")
         feed(G.SigGen(rng, keys).multisig(spec["n"]), 150)
         feed(G.two_sigops_cases(rng, keys, spec["n"] // 3), 150)
     elif kind == "lock_rand":
+        rec.require("src:locktime", "src:random", "src:cond", "src:arith", "src:witdisp")
         feed(G.locktime_cases(rng, spec["n_lock"]), 2500)
         feed(G.locktime_eval_cases(rng, spec["n_lock"] // 4), 1500)
         feed(G.random_scripts(rng, spec["n_rand"]), 4000)
         feed(G.cond_tree_cases(rng, spec["n_rand"] // 2), 2500)
         feed(G.arith_chain_cases(rng, spec["n_rand"] // 2), 2500)
         feed(G.witness_dispatch_cases(rng), 1500)
+    mon.flush()
+
+
+# counters the fixed shard must leave non-zero (clause of the statement -> evidence counter)
+REQUIRED_FIXED = [
+    # entry points
+    "Tx.check_solution", "Tx.is_solution_ok", "Tx.bad_solution_count", "Tx.is_solution_ok.default_flags", "Tx.bad_solution_count.default_flags",
+    "SolutionChecker.check_solution(shared instance)", "BitcoinVM.eval_script", "eval.final_stack_compared", "ref:OK", "ref:FAIL",
+    # workloads
+    "src:corpus", "src:limit", "src:witdisp", "src:p2sh", "src:opmatrix", "src:minpush", "src:sig", "src:multi",
+    # all 256 opcode values, executed and in unexecuted branches
+    "opmatrix.all_256_opcodes_executed_and_dead", "decided_by:BAD_OPCODE", "decided_by:DISABLED_OPCODE", "decided_by:OP_RETURN",
+    # truthiness / numeric operand rules
+    "decided_by:EVAL_FALSE", "decided_by:VERIFY", "decided_by:UNKNOWN_ERROR", "decided_by:INVALID_STACK_OPERATION",
+    "decided_by:INVALID_ALTSTACK_OPERATION", "decided_by:EQUALVERIFY",
+    # limits
+    "decided_by:PUSH_SIZE", "decided_by:OP_COUNT", "decided_by:STACK_SIZE", "decided_by:SCRIPT_SIZE", "decided_by:PUBKEY_COUNT", "decided_by:SIG_COUNT",
+    # conditionals
+    "decided_by:UNBALANCED_CONDITIONAL", "decided_by:MINIMALIF",
+    # signature / key / hash-type encodings and the BIP62/66/146/147 flags
+    "decided_by:SIG_DER[DERSIG]", "decided_by:SIG_DER[LOW_S]", "decided_by:SIG_DER[STRICTENC]", "decided_by:SIG_HIGH_S", "decided_by:SIG_HASHTYPE",
+    "decided_by:PUBKEYTYPE", "decided_by:WITNESS_PUBKEYTYPE", "decided_by:SIG_NULLDUMMY", "decided_by:NULLFAIL", "decided_by:MINIMALDATA",
+    "decided_by:SIG_PUSHONLY", "decided_by:CLEANSTACK", "decided_by:CHECKSIGVERIFY", "decided_by:CHECKMULTISIGVERIFY",
+    "decided_by:DISCOURAGE_UPGRADABLE_NOPS",
+    # BIP65 / BIP112
+    "decided_by:NEGATIVE_LOCKTIME", "decided_by:UNSATISFIED_LOCKTIME",
+    # P2SH and witness dispatch (BIP16 / BIP141 / BIP143)
+    "stage:scriptSig", "stage:scriptPubKey", "stage:redeem", "stage:witness", "stage:eval",
+    "decided_by:WITNESS_MALLEATED", "decided_by:WITNESS_MALLEATED_P2SH", "decided_by:WITNESS_UNEXPECTED", "decided_by:WITNESS_PROGRAM_MISMATCH",
+    "decided_by:WITNESS_PROGRAM_WRONG_LENGTH", "decided_by:WITNESS_PROGRAM_WITNESS_EMPTY", "decided_by:DISCOURAGE_UPGRADABLE_WITNESS_PROGRAM",
+] + ["ok_with_flag:" + n for _, n in FLAG_BITS]
 
 
 def _brief(case):
@@ -400,6 +594,7 @@ def _brief(case):
 
 def replay_case(case, rec):
     mon = Monitor(rec)
+    mon.entry_every = 1
     ok = mon.run(case)
     if not ok and case["k"] != "multi":
         rt = []
